@@ -180,6 +180,7 @@ func c05(c *core.Check) {
 
 	// (3) Reference => Used pairing
 	c05pairing(c)
+	c05searchLoops(c)
 	// (4) IsTypedef
 	c05typedefFlag(c)
 }
@@ -368,4 +369,100 @@ func enclosingIfCond(root ast.Node, target ast.Node) ast.Expr {
 		return true
 	})
 	return cond
+}
+
+// c05searchLoops: a loop that searches the include list for a prefix may only be left (break) in a block that records
+// the binding; leaving it on a miss would hide a later include with the same base name.
+func c05searchLoops(c *core.Check) {
+	pk := c.Prog.Pkg("semantic")
+	info := pk.TypesInfo
+	n := 0
+	for _, f := range pk.Syntax {
+		for _, d := range f.Decls {
+			fd, ok := d.(*ast.FuncDecl)
+			if !ok || fd.Body == nil {
+				continue
+			}
+			ast.Inspect(fd.Body, func(nd ast.Node) bool {
+				rs, ok := nd.(*ast.RangeStmt)
+				if !ok {
+					return true
+				}
+				sel, ok := rs.X.(*ast.SelectorExpr)
+				if !ok || sel.Sel.Name != "Includes" {
+					return true
+				}
+				// breaks that target this loop: not nested in an inner for/switch/select
+				var breaks []*ast.BranchStmt
+				var walk func(n ast.Node, inner bool)
+				walk = func(n ast.Node, inner bool) {
+					ast.Inspect(n, func(m ast.Node) bool {
+						switch x := m.(type) {
+						case *ast.ForStmt, *ast.RangeStmt, *ast.SwitchStmt, *ast.TypeSwitchStmt, *ast.SelectStmt:
+							if m != n {
+								return false // a break inside belongs to the inner statement
+							}
+						case *ast.FuncLit:
+							return false
+						case *ast.BranchStmt:
+							if x.Tok == token.BREAK && x.Label == nil {
+								breaks = append(breaks, x)
+							}
+						}
+						return true
+					})
+				}
+				walk(rs.Body, false)
+				for _, br := range breaks {
+					n++
+					key := fmt.Sprintf("semantic.%s/range %s/break#%d", fd.Name.Name, rules.ExprString(rs.X), n)
+					// the innermost block containing the break must record a binding: an assignment to .Reference / .Used
+					blk := enclosingBlock(rs.Body, br)
+					okB := false
+					if blk != nil {
+						for _, s := range blk {
+							shallow(s, func(m ast.Node) {
+								if as, ok := m.(*ast.AssignStmt); ok {
+									for _, l := range as.Lhs {
+										t := rules.ExprString(l)
+										if strings.HasSuffix(t, ".Reference") || strings.HasSuffix(t, ".Used") {
+											okB = true
+										}
+									}
+								}
+							})
+						}
+					}
+					c.Decide(okB, "include-search-complete", key, c.Prog.Rel(br.Pos()), "the loop is left only after a binding was recorded",
+						"the search over the include list is abandoned on a miss: a later include with the same base name is never considered (\"undefined type\" for a type that exists)")
+				}
+				return true
+			})
+		}
+	}
+	_ = info
+	c.Min("include-search-complete", 2)
+}
+
+// enclosingBlock returns the statement list of the innermost block that directly contains target.
+func enclosingBlock(root ast.Node, target ast.Node) []ast.Stmt {
+	var out []ast.Stmt
+	ast.Inspect(root, func(n ast.Node) bool {
+		var list []ast.Stmt
+		switch b := n.(type) {
+		case *ast.BlockStmt:
+			list = b.List
+		case *ast.CaseClause:
+			list = b.Body
+		default:
+			return true
+		}
+		for _, s := range list {
+			if s == target {
+				out = list
+			}
+		}
+		return true
+	})
+	return out
 }
